@@ -43,6 +43,13 @@ def do_OP_RESERVED(vm: Any) -> None:
 setattr(do_OP_RESERVED, "outside_conditional", True)
 
 
+def do_OP_IFDUP(vm: Any) -> None:
+    # overrides the generic stackops.do_OP_IFDUP: duplicate only if the top item is *true*
+    # as the script VM sees it (a non-empty encoding of zero such as 00 or 80 is false)
+    if vm.bool_from_script_bytes(vm[-1]):
+        vm.append(vm[-1])
+
+
 def do_OP_FROMALTSTACK(vm: Any) -> None:
     if len(vm.altstack) < 1:
         raise ScriptError("alt stack empty", errno.INVALID_ALTSTACK_OPERATION)
